@@ -1,0 +1,15 @@
+//go:build verif
+
+// Contracts for the gvc verifier (/verif). Comment-only file: it adds no code to the package.
+package tsi
+
+// The step a round is entered in is computed from the vote summary alone. It is never "awaiting prevotes",
+// and a delay step means the corresponding total power is past the two-thirds majority.
+//@ func GetStepFromVoteSummary
+//@   property C08 C09 C12
+//@   requires vs.AvailablePower > 0
+//@   ensures never-awaiting-prevotes: result != StepAwaitingPrevotes
+//@   ensures one-of: result == StepAwaitingProposal || result == StepPrevoteDelay || result == StepAwaitingPrecommits || result == StepPrecommitDelay || result == StepCommitWait
+//@   ensures delay-steps: (result == StepPrevoteDelay ==> 3 * vs.TotalPrevotePower > 2 * vs.AvailablePower) && (result == StepPrecommitDelay ==> 3 * vs.TotalPrecommitPower > 2 * vs.AvailablePower)
+//@   ensures commit-wait-means-block-quorum: result == StepCommitWait ==> 3 * vs.PrecommitBlockPower[vs.MostVotedPrecommitHash] > 2 * vs.AvailablePower
+//@   modifies nothing
